@@ -86,7 +86,7 @@ CHECKS = {
         "a real single-threaded stepped qb_ipcs server (or speak the handshake on the wire and try to push requests through whatever they can reach); "
         "every file-system libc call of the server is followed by a stat snapshot of its /dev/shm prefix; TLC validates every event, evaluating the "
         "invariants at each observation (IpcAdmitTrace.tla).",
-   note="Root sandbox (without root only the caller's own ids are explored, recorded in the evidence); ids from {0, 1, 65534, 1000} x {0, 1, 1000}; observation points are the interposed libc calls; the directory rule is 'owner/group authorised, no access for other' (DESIGN.md 4.0); KF-C05-3 excluded by trigger with a directed reproducer.",
+   note="Root sandbox (without root only the caller's own ids are explored, recorded in the evidence); ids from {0, 1, 65534, 1000} x {0, 1, 1000}; observation points are the interposed libc calls; the directory rule is 'owner/group authorised, no access for other' (DESIGN.md 4.0); all three findings (KF-C05-1..3) are repaired in /repo, nothing is excluded.",
    technique="TLA+ model checking (TLC) + TLC-generated scenarios executed with real client processes + TLC trace validation at every observation point",
    design_ref="DESIGN.md section 4, C05"),
  "C07": dict(
